@@ -46,8 +46,12 @@ LEVEL_TEXT = (
 LEVEL_NOTE = (
     "the controlled pool exercises the identical polling/reporting code a "
     "thread or process pool would; a real process pool cannot be scheduled "
-    "and is not part of the exhaustive claim. trusted: tree.contract_stats "
-    "(itself under C03/C04)"
+    "and is not part of the exhaustive claim; the pool model is bound to "
+    "real executors by conformance runs: every pool configuration is also "
+    "run 3x on a real ThreadPoolExecutor and a real (fork) "
+    "ProcessPoolExecutor under the same oracle (counted in stats as "
+    "real-pool-conformance-runs). trusted: tree.contract_stats (itself "
+    "under C03/C04)"
 )
 RULE = (
     "states = distinct (completion order) executions; transitions = future "
@@ -134,6 +138,16 @@ def units(tier, seed):
                    ((), reps, mt), tier, seed))
         us.append(("pool", "ring5", "greedy+failing", "combo",
                    (("reconf_opts",), reps, mt), tier, seed))
+    # conformance of the controlled pool with REAL pools: the same
+    # configurations on a real thread pool and a real process pool (free
+    # running, completion order not controlled - not part of the exhaustive
+    # claim, it binds the pool model to what real executors do)
+    for cfg in pool_cfgs:
+        us.append(("realpool", cfg[0], cfg[1], cfg[2], (cfg[3], reps,
+                                                        "threads"), tier, seed))
+        if "failing" not in cfg[1]:
+            us.append(("realpool", cfg[0], cfg[1], cfg[2],
+                       (cfg[3], reps, "processes"), tier, seed))
     us.sort(key=lambda u: u[0] != "pool")
     return us
 
@@ -295,6 +309,39 @@ def work(unit):
                         case, bad[:3], max_per_unit=2)
         res.sample({"mode": "serial", "net": net, "methods": ms,
                     "minimize": mz, "post_subsets": 28}, cap=1)
+        return res
+
+    if kind == "realpool":
+        import concurrent.futures as cf
+        import multiprocessing as mp
+
+        post, reps, ptype = extra
+        for rep in range(3):
+            if ptype == "threads":
+                pool = cf.ThreadPoolExecutor(3)
+            else:
+                pool = cf.ProcessPoolExecutor(
+                    2, mp_context=mp.get_context("fork"))
+            case = {"mode": "realpool:" + ptype, "net": net, "methods": ms,
+                    "minimize": mz, "post": post, "max_repeats": reps}
+            res.evals += 1
+            res.states += 1
+            try:
+                with pool:
+                    opt = make_opt(ms, mz, post, reps, pool)
+                    tree = opt.search(*q)
+                bad = check_search(opt, tree, q, reps)
+                res.transitions += len(opt.scores)
+                res.outcomes.add(hash(("real", ptype, tuple(opt.scores))))
+            except Exception as e:
+                import traceback
+
+                bad = [("search-raises:" + type(e).__name__,
+                        traceback.format_exc()[-600:])]
+            if bad:
+                res.violation(f"hyper:{bad[0][0]}:realpool-{ptype}", case,
+                              bad[:3], max_per_unit=1)
+        res.stat(f"real-pool-conformance-runs[{ptype}]", 3)
         return res
 
     post, reps = extra[0], extra[1]
